@@ -555,9 +555,12 @@ func checkC10(v *tunView, m *connModel) {
 		}
 		// Close waits for the receive loop; inside a reconnect exchange that loop waits for its
 		// answer (<= T) and then for every Send in progress or queued (<= T each).
+		// A Send invoked while Close is still waiting gets in line for the same lock as the loop
+		// (which asks for it at the end of the reconnect exchange, at most T after Close began) and
+		// may be served first.
 		pend := 0
 		for _, sc := range r.h.Sends {
-			if sc.Inv.Seq < cc.Inv.Seq && (!sc.Done || sc.Ret.Seq > cc.Inv.Seq) {
+			if sc.Inv.T <= cc.Inv.T+c.T+eps && (!sc.Done || sc.Ret.Seq > cc.Inv.Seq) {
 				pend++
 			}
 		}
